@@ -69,6 +69,7 @@ def main (args : List String) : IO UInt32 := do
   | ["udpacl"] => loopState stdin stdout UdpAcl.step UdpAcl.init; return 0
   | ["udpsession"] => loopState stdin stdout UdpSession.step UdpSession.init; return 0
   | ["ring"] => loopState stdin stdout Ring.ringStep Ring.ringInit; return 0
+  | ["bbrcore"] => loopState stdin stdout Bbr.stepCore Bbr.initCore; return 0
   | ["bbr"] => loopState stdin stdout Bbr.step Bbr.init; return 0
   | ["pnq"] => loopState stdin stdout Ring.pnqStep Ring.pnqInit; return 0
   | ["c18"] => loopPure stdin stdout C18.step; return 0
